@@ -10,7 +10,9 @@ import traceback
 
 VERIF = os.path.dirname(os.path.dirname(os.path.abspath(__file__)))
 REPO = os.environ.get('CMVERIF_REPO', '/repo')
-EVID = os.path.join(VERIF, 'evidence')
+# evidence describes the tree the registered commands check (/repo); a run on a scratch copy (CMVERIF_REPO=<dir>, used for seeded
+# changes and mutation tests) must not overwrite it
+EVID = os.path.join(VERIF, 'evidence') if REPO == '/repo' else os.path.join(VERIF, '.build', 'scratch-evidence')
 REPLAYS = os.path.join(VERIF, 'replays')
 KNOWN = os.path.join(VERIF, 'known_findings.json')
 
